@@ -134,4 +134,178 @@ theorem dyn_join_tie {σ} (g : Rng σ) (rs : RegionState) (p : Gen.PlanSelectFn.
   · intro s i
     simp (disch := omega) only [next_rngOf, andI_3, wrap_u8_nat, regOf, ge_iff_le, Int.ofNat_le, decide_eq_true_eq]
 
+/-- a data frame on a dynamic plan -/
+theorem dyn_data_tie {σ} (g : Rng σ) (rs : RegionState) (p : Gen.PlanSelectFn.DynamicChannelPlan)
+    (hplan : rs.plan = .dyn (planOf p)) (hw : PlanWF p) (dr : DR) (s : σ) :
+    (@Gen.PlanSelectFn.DynamicChannelPlan.select_tx_channel (regOf rs.id) σ (rngOf g) (fuelOf loopFuel) p s dr .Data).map
+        (fun o => (txOf o.1, { rs with plan := .dyn (planOf o.2.1) }, o.2.2))
+      = (selectTxChannel g rs dr .data s).toOption := by
+  obtain ⟨hc, hml, hoct, hfr⟩ := hw
+  unfold Gen.PlanSelectFn.DynamicChannelPlan.select_tx_channel selectTxChannel
+  simp only [hplan, fuel_fuelOf, Option.bind_eq_bind, Option.pure_def]
+  rw [show Gen.Region.NUM_CHANNELS_DYNAMIC = ((16 : Nat) : Int) from rfl]
+  rw [rangeAny_tie (f' := fun i => do pure (← (planOf p).usable i).isSome) 16]
+  · rw [toOption_bind, indexDatarate_opt]
+    cases hA : anyM (fun i => do pure (← (planOf p).usable i).isSome) (List.range 16) with
+    | error e =>
+      simp only [hA, Except.toOption, bind, Except.bind, Option.bind_none, Option.map_none]
+      cases (datarates rs.id)[dr.toInt.toNat]? <;> rfl
+    | ok b =>
+      simp only [Except.toOption, Option.bind_some, bind, Except.bind]
+      -- the plan the fallback leaves
+      generalize hSg : (ite ((!b) = true) _ (some p) : Option Gen.PlanSelectFn.DynamicChannelPlan) = Sg
+      generalize hSm : (ite (b = true) (pure (planOf p)) _ : M DynPlan) = Sm
+      have hS : Sg.map planOf = Sm.toOption ∧ ∀ q, Sg = some q → PlanWF q := by
+        cases b with
+        | true =>
+          simp only [Bool.not_true, Bool.false_eq_true, if_false, if_true] at hSg hSm
+          subst hSg; subst hSm
+          exact ⟨rfl, by intro q hq; cases hq; exact ⟨hc, hml, hoct, hfr⟩⟩
+        | false =>
+          simp only [Bool.not_false, if_true, Bool.false_eq_true, if_false] at hSg hSm
+          have h2 : (Sg.map (fun q => natsOf q.channel_mask._0)
+                = ((List.range (numJoinChannels rs.id)).foldlM (fun m i => Mask.setChannel m i true) (natsOf p.channel_mask._0)).toOption) ∧
+              (∀ s', Sg = some s' → (PlanWF s' ∧ s'.channels = p.channels)) := by
+            rw [← hSg]
+            refine forRange_tie (fun q => natsOf q.channel_mask._0) (fun q => PlanWF q ∧ q.channels = p.channels)
+              (numJoinChannels rs.id) p ⟨⟨hc, hml, hoct, hfr⟩, rfl⟩ ?_
+            intro j q hj hq
+            obtain ⟨⟨hqc, hqm, hqo, hqf⟩, hqe⟩ := hq
+            have hj3 : j < 3 := by
+              have : numJoinChannels rs.id ≤ 3 := by cases rs.id <;> decide
+              omega
+            have h1 := set_channel_nat9 q.channel_mask hqo j (by omega) true
+            try dsimp only
+            cases hsc : Gen.ChannelMaskFn.ChannelMask.set_channel q.channel_mask (j : Int) true with
+            | none =>
+              rw [hsc] at h1
+              exact ⟨by simpa using h1, by intro s' h; simp at h⟩
+            | some m' =>
+              rw [hsc] at h1
+              obtain ⟨ho, hl⟩ := set_channel_octets q.channel_mask m' hqo (j : Int) (by omega) (by omega) true hsc
+              refine ⟨by simpa using h1, ?_⟩
+              intro s' h
+              simp only [Option.bind_some, Option.some.injEq] at h
+              subst h
+              exact ⟨⟨hqc, by rw [hl]; exact hqm, ho, hqf⟩, hqe⟩
+          subst hSm
+          obtain ⟨h2a, h2b⟩ := h2
+          refine ⟨?_, fun q hq => (h2b q hq).1⟩
+          rw [show (planOf p).mask = natsOf p.channel_mask._0 from rfl]
+          generalize List.foldlM (fun m i => Mask.setChannel m i true) (natsOf p.channel_mask._0) (List.range (numJoinChannels rs.id)) = X at h2a ⊢
+          cases hq : Sg with
+          | none =>
+            rw [hq] at h2a
+            cases X with
+            | error e => rfl
+            | ok v => simp [Except.toOption] at h2a
+          | some q =>
+            rw [hq] at h2a
+            have hqc := (h2b q hq).2
+            cases X with
+            | error e => simp [Except.toOption] at h2a
+            | ok v =>
+              simp [Except.toOption] at h2a
+              simp [Except.toOption, planOf, pure, Except.pure, hqc, h2a]
+      clear hSg hSm hA
+      obtain ⟨hS1, hS2⟩ := hS
+      cases hq : Sg with
+      | none =>
+        rw [hq] at hS1
+        cases Sm with
+        | ok v => simp [Except.toOption] at hS1
+        | error e =>
+          simp only [Option.bind_none, Option.map_none]
+          cases (datarates rs.id)[dr.toInt.toNat]? <;> rfl
+      | some q =>
+        rw [hq] at hS1
+        obtain ⟨hqc, hqm, hqo, hqf⟩ := hS2 q hq
+        cases Sm with
+        | error e => simp [Except.toOption] at hS1
+        | ok v =>
+          have hv : v = planOf q := by simpa [Except.toOption] using hS1.symm
+          subst hv
+          simp only [Option.bind_some]
+          rw [dataLoop_tie g (planOf q) q (fun s => @Gen.PlanSelectFn.DynamicChannelPlan.get_random_in_range σ (rngOf g) q s) (random_tie g q hqc)
+            (fun c s' => (((datarates rs.id)[dr.toInt.toNat]?).bind id).map (fun d =>
+              (({ datarate := d, dr := dr, frequency := (c.freq : Int), rx1_frequency := (c.rx1Frequency : Int) } : Gen.PlanSelectFn.TxChannel), q, s')))
+            _ ?hstep _ _ loopFuel ?hK]
+          case hK => intro c s1; rfl
+          case hstep =>
+            intro s' i
+            dsimp only
+            rw [bind_bind_id, is_enabled_nat9 _ hqo hqm]
+            unfold DynPlan.usable
+            simp only [planOf]
+            cases hen : Mask.isEnabled (natsOf q.channel_mask._0) i with
+            | error e => rfl
+            | ok bb =>
+              cases bb
+              · simp only [Except.toOption, Option.bind_some, Bool.false_eq_true, if_false, bind, Except.bind, pure, Except.pure]
+                cases (@Gen.PlanSelectFn.DynamicChannelPlan.get_random_in_range σ (rngOf g) q s') <;> rfl
+              · simp only [Except.toOption, Option.bind_some, if_true, idx_nat, bind, Except.bind, List.getElem?_map]
+                cases hch : q.channels[i]? with
+                | none => rfl
+                | some oc =>
+                  cases oc with
+                  | none =>
+                    simp only [Option.map_some, Option.map_none, Option.bind_some, pure, Except.pure]
+                    cases (@Gen.PlanSelectFn.DynamicChannelPlan.get_random_in_range σ (rngOf g) q s') <;> rfl
+                  | some ch =>
+                    obtain ⟨hf0, hf1⟩ := hqf ch (List.mem_of_getElem? hch)
+                    simp only [Option.map_some, Option.bind_some, pure, Except.pure]
+                    rw [show (regOf rs.id).datarates = datarates rs.id from rfl, idx_datarates]
+                    have e1 : ch.ul_frequency = (((chanOf ch).freq : Nat) : Int) := by
+                      simp only [Gen.PlanSelectFn.Channel.ul_frequency, chanOf]; omega
+                    have e2 : ch.rx1_frequency = (((chanOf ch).rx1Frequency : Nat) : Int) := by
+                      simp only [Gen.PlanSelectFn.Channel.rx1_frequency, chanOf, Channel.rx1Frequency]
+                      cases hdl : ch.dl_frequency with
+                      | none => simp only [Option.map_none]; omega
+                      | some f => have := hf1 f hdl; simp only [Option.map_some]; omega
+                    rw [e1, e2]
+                    cases (datarates rs.id)[dr.toInt.toNat]? with
+                    | none => rfl
+                    | some od => cases od <;> rfl
+          cases hL : dynDataLoop g (planOf q) loopFuel s with
+          | error e =>
+            simp only [Except.toOption, Option.bind_none, Option.map_none]
+            cases (datarates rs.id)[dr.toInt.toNat]? <;> rfl
+          | ok o =>
+            obtain ⟨c, s1⟩ := o
+            cases (datarates rs.id)[dr.toInt.toNat]? with
+            | none => rfl
+            | some od =>
+              cases od with
+              | none => rfl
+              | some d => simp [Except.toOption, unwrapDatarate, pure, Except.pure, txOf]
+  · intro j hj
+    show _ = _
+    rw [bind_bind_id, is_enabled_nat9 _ hoct hml]
+    unfold DynPlan.usable
+    simp only [planOf]
+    cases hen : Mask.isEnabled (natsOf p.channel_mask._0) j with
+    | error e => rfl
+    | ok b =>
+      cases b
+      · rfl
+      · simp only [Except.toOption, Option.bind_some, if_true, idx_nat, bind, Except.bind, List.getElem?_map]
+        cases p.channels[j]? with
+        | none => rfl
+        | some oc => cases oc <;> rfl
+
+/-- **`DynamicChannelPlan::select_tx_channel` as the current source has it is the model's `selectTxChannel`** on a
+dynamic plan: for every plan (16 slots, 9 mask octets), data rate, frame kind, generator and stream — the same
+TxChannel, the same plan afterwards (the "never spin" fallback included), the same stream state; a failure
+(panic, or the redraw loops using up `loopFuel` draws) on one side iff on the other -/
+theorem tieA_dynamic_select_tx_channel {σ} (g : Rng σ) (rs : RegionState) (p : Gen.PlanSelectFn.DynamicChannelPlan)
+    (hplan : rs.plan = .dyn (planOf p)) (hw : PlanWF p) (dr : DR) (frame : Gen.PlanSelectFn.Frame) (s : σ) :
+    (@Gen.PlanSelectFn.DynamicChannelPlan.select_tx_channel (regOf rs.id) σ (rngOf g) (fuelOf loopFuel) p s dr frame).map
+        (fun o => (txOf o.1, { rs with plan := .dyn (planOf o.2.1) }, o.2.2))
+      = (selectTxChannel g rs dr (frameOf frame) s).toOption := by
+  cases frame
+  · exact dyn_join_tie g rs p hplan hw dr s
+  · exact dyn_data_tie g rs p hplan hw dr s
+
+#print axioms tieA_dynamic_select_tx_channel
+
 end C09
